@@ -135,6 +135,9 @@ pub enum Stuck {
     Deadlock(Vec<(&'static str, Option<usize>)>),
     /// the running worker neither parked nor finished within the wall-clock guard
     NoProgress,
+    /// more yield points than any terminating execution of such a small scenario can have
+    /// (a logical step bound, not a clock): some worker spins without ever finishing
+    Livelock(usize),
 }
 
 pub struct RunOutcome<R> {
@@ -143,6 +146,10 @@ pub struct RunOutcome<R> {
     pub stuck: Option<Stuck>,
     pub preemptions: u32,
 }
+
+/// Terminating executions of the scenarios used here (<= 4 threads x <= 3 calls on texts of <= 4
+/// lines) pass a few hundred yield points at most.
+pub const MAX_STEPS: usize = 20_000;
 
 pub enum Policy<'a> {
     /// follow these option indices, then always option 0 (= keep running the same worker)
@@ -226,6 +233,10 @@ pub fn run_controlled<R: Send + 'static>(bodies: Vec<Box<dyn FnOnce() -> R + Sen
             }
         }
         let k = decisions.len();
+        if k >= MAX_STEPS {
+            stuck = Some(Stuck::Livelock(k));
+            break;
+        }
         let idx = match &mut policy {
             Policy::Prefix(p) => p.get(k).copied().unwrap_or(0).min(options.len() - 1),
             Policy::Random(r) => r.usize_below(options.len()),
